@@ -713,3 +713,132 @@ T('h_stats_lookup_loop', ['C19'],
             return mw
     raise NotImplemented("StatsMiddleware not installed on app %r" % _application)
 '''))
+
+# ------------------------------------------------------------------------------------------------ C19: report / reset as methods
+# the per-status summary as a method of the reservoir, the report / report-and-reset as methods of the middleware, the endpoints
+# only look the middleware up and hand over: followed through method calls on objects whose class is known (the factory of the
+# table reset() builds; the isinstance test that picked the middleware; ``self``)
+_ST_RES_ADD_TAIL = "        self.last_hit = hit.start_time\n        self.total_duration += hit.duration\n"
+_ST_DESCRIBE_HEAD = '''
+    def describe(self):
+        durs = [round(h.duration * 1000, 2) for h in self]
+        stats = Stats(durs, use_copy=False)
+'''
+_ST_DESCRIBE_OK = _ST_DESCRIBE_HEAD + '''        desc_dict = stats.describe(quantiles=[0.25, 0.5, 0.75, 0.95, 0.99], format="dict")
+        desc_dict['count'] = self.total_count
+        desc_dict['last_hit'] = datetime.datetime.fromtimestamp(self.last_hit).isoformat()
+        desc_dict['total_duration'] = round(self.total_duration * 1000, 2)
+        return desc_dict
+'''
+_ST_ROUTE_STATS_VIA_METHOD = '''def _get_route_stats(rt_hits):
+    return {status: hits.describe() for status, hits in rt_hits.items()}
+'''
+_ST_GET_EP = '''    stats_mw = _get_stats_mw(_application)
+    rt_hits = stats_mw.route_hits
+    utcnow = datetime.datetime.utcnow().isoformat()
+    return {'route_stats': dict([(rt.pattern, _get_route_stats(rh)) for rt, rh
+                                 in rt_hits.items() if rh]),
+            'start_time_utc': stats_mw.last_reset.isoformat(),
+            'cur_time_utc': utcnow}
+'''
+_ST_REQUEST_TAIL = "            self.route_hits[_route][resp_status].add(hit)\n        return resp\n"
+_ST_MW_REPORT = '''
+    def get_route_stats(self):
+        ret = {}
+        for rt, rt_hits in self.route_hits.items():
+            if not rt_hits:
+                continue
+            ret[rt.pattern] = _get_route_stats(rt_hits)
+        return ret
+
+    def get_stats_dict(self):
+        utcnow = datetime.datetime.utcnow().isoformat()
+        return {'route_stats': self.get_route_stats(),
+                'start_time_utc': self.last_reset.isoformat(),
+                'cur_time_utc': utcnow}
+'''
+_ST_MW_RESET_OK = '''
+    def get_and_reset_stats_dict(self):
+        ret = self.get_stats_dict()
+        self.reset()
+        ret['reset'] = True
+        return ret
+'''
+
+
+def _mw_methods(reset_method=_ST_MW_RESET_OK, get_ep='    return _get_stats_mw(_application).get_stats_dict()\n',
+                reset_ep='    return _get_stats_mw(_application).get_and_reset_stats_dict()\n'):
+    return [(STATS, _ST_REQUEST_TAIL, _ST_REQUEST_TAIL + _ST_MW_REPORT + reset_method),
+            (STATS, _ST_GET_EP, get_ep), (STATS, _ST_RESET_EP, reset_ep)]
+
+
+T('h_report_describe_method', ['C19'],
+  (STATS, _ST_RES_ADD_TAIL, _ST_RES_ADD_TAIL + _ST_DESCRIBE_OK), (STATS, _ST_ROUTE_STATS, _ST_ROUTE_STATS_VIA_METHOD))
+T('h_report_describe_method_loop', ['C19'],
+  (STATS, _ST_RES_ADD_TAIL, _ST_RES_ADD_TAIL + _ST_DESCRIBE_OK),
+  (STATS, _ST_ROUTE_STATS, '''def _get_route_stats(rt_hits):
+    ret = {}
+    for hits in rt_hits.values():
+        pass
+    for status in rt_hits:
+        reservoir = rt_hits[status]
+        ret[status] = reservoir.describe()
+    return ret
+'''))
+B('h_report_describe_method_sample_size', ['C19'], 'R19.b',
+  (STATS, _ST_RES_ADD_TAIL, _ST_RES_ADD_TAIL + _ST_DESCRIBE_OK.replace("desc_dict['count'] = self.total_count", "desc_dict['count'] = len(durs)")),
+  (STATS, _ST_ROUTE_STATS, _ST_ROUTE_STATS_VIA_METHOD))
+B('h_report_describe_method_count_left_to_boltons', ['C19'], 'R19.b',
+  (STATS, _ST_RES_ADD_TAIL, _ST_RES_ADD_TAIL + _ST_DESCRIBE_OK.replace("        desc_dict['count'] = self.total_count\n", '')),
+  (STATS, _ST_ROUTE_STATS, _ST_ROUTE_STATS_VIA_METHOD))
+B('h_report_describe_method_describe_last', ['C19'], 'R19.b',
+  (STATS, _ST_RES_ADD_TAIL, _ST_RES_ADD_TAIL + _ST_DESCRIBE_HEAD + '''        summary = {'count': self.total_count,
+                   'last_hit': datetime.datetime.fromtimestamp(self.last_hit).isoformat(),
+                   'total_duration': round(self.total_duration * 1000, 2)}
+        summary.update(stats.describe(quantiles=[0.25, 0.5, 0.75, 0.95, 0.99], format="dict"))
+        return summary
+'''),
+  (STATS, _ST_ROUTE_STATS, _ST_ROUTE_STATS_VIA_METHOD))
+T('h_report_mw_methods', ['C19', 'C15'], *_mw_methods())
+T('h_report_mw_methods_named_mw', ['C19'],
+  *_mw_methods(reset_ep='    stats_mw = _get_stats_mw(_application)\n    report = stats_mw.get_and_reset_stats_dict()\n    return report\n'))
+T('h_report_all_methods', ['C19'],
+  (STATS, _ST_RES_ADD_TAIL, _ST_RES_ADD_TAIL + _ST_DESCRIBE_OK), (STATS, _ST_ROUTE_STATS, _ST_ROUTE_STATS_VIA_METHOD), *_mw_methods())
+B('h_report_mw_method_resets_first', ['C19'], 'R19.b',
+  *_mw_methods(reset_method='''
+    def get_and_reset_stats_dict(self):
+        self.reset()
+        ret = self.get_stats_dict()
+        ret['reset'] = True
+        return ret
+'''))
+B('h_report_mw_method_report_recomputed', ['C19'], 'R19.b',
+  *_mw_methods(reset_method='''
+    def get_and_reset_stats_dict(self):
+        self.get_stats_dict()
+        self.reset()
+        return dict(self.get_stats_dict(), reset=True)
+'''))
+B('h_report_mw_method_reset_in_endpoint_first', ['C19'], 'R19.b',
+  *_mw_methods(reset_ep='    stats_mw = _get_stats_mw(_application)\n    stats_mw.reset()\n    return stats_mw.get_and_reset_stats_dict()\n'))
+B('h_report_mw_methods_on_snapshot', ['C19'], 'R19.d',
+  (STATS, 'import datetime\n', 'import datetime\nimport copy\n'),
+  *_mw_methods(reset_ep='    return copy.copy(_get_stats_mw(_application)).get_and_reset_stats_dict()\n'))
+B('h_report_mw_methods_on_fresh_instance', ['C19'], 'R19.d',
+  *_mw_methods(get_ep='    return StatsMiddleware().get_stats_dict()\n'))
+B('h_report_mw_methods_fallback_instance', ['C19'], 'R19.d',
+  (STATS, _ST_LOOKUP, '''    try:
+        stats_mw = [mw for mw in _application.middlewares
+                    if isinstance(mw, StatsMiddleware)][0]
+    except IndexError:
+        stats_mw = StatsMiddleware()
+    return stats_mw
+'''), *_mw_methods())
+B('h_report_mw_method_resets_other_instance', ['C19'], 'R19.d',
+  *_mw_methods(reset_method='''
+    def get_and_reset_stats_dict(self):
+        ret = self.get_stats_dict()
+        StatsMiddleware().reset()
+        ret['reset'] = True
+        return ret
+'''))
